@@ -424,7 +424,8 @@ fn gen_link(r: &mut Rng, profile: Profile, horizon: u64) -> Link {
     if on(r) {
         for _ in 0..r.urange(1, 3) {
             let a = r.below(horizon.max(2));
-            let len = 2 + r.below(30);
+            // mostly short stalls; sometimes a long one, so that a whole burst arrives as one batch
+            let len = if r.chance(1, 5) { 2 + r.below(horizon.max(2)) } else { 2 + r.below(30) };
             stalls.push((a, a + len));
         }
     }
